@@ -20,3 +20,128 @@ package ers
 //@ func IsExpiredContext
 //@   props C03
 //@   ensures result == (err != nil && (errIs(err, context_Canceled) || errIs(err, context_DeadlineExceeded)))
+
+// ---------------------------------------------------------------------------
+// Stack: a linked list of errors, newest first, terminated by an empty node.
+// Ghost: st.nodes = the chain st, st.next, ... (n+1 nodes); st.view = the n
+// errors held by the first n nodes ("most recent first").
+// ---------------------------------------------------------------------------
+
+//@ ghost Stack.nodes seq
+//@ ghost Stack.view seq
+//@ ghostinit Stack.nodes(s) = [s]
+//@ ghostinit Stack.view(s) = []
+
+//@ pred sinv(st *Stack) = st != nil && len(st.view) >= 0 && len(st.nodes) == len(st.view) + 1 && st.nodes[0] == st && st.count == len(st.view)
+//@ |  && (forall i: int :: 0 <= i && i < len(st.view) ==> cast(st.nodes[i], "*Stack").next == st.nodes[i + 1] && cast(st.nodes[i], "*Stack").err == st.view[i] && st.view[i] != nil)
+//@ |  && (forall i: int :: 0 <= i && i <= len(st.view) ==> known(st.nodes[i]))
+//@ |  && cast(st.nodes[len(st.view)], "*Stack").err == nil && cast(st.nodes[len(st.view)], "*Stack").next == nil
+//@ |  && (forall i: int, j: int :: 0 <= i && i < j && j <= len(st.view) ==> st.nodes[i] != st.nodes[j])
+
+// "plain" operands are pushed as one constituent; *Stack operands and errors
+// that expose Unwind() []error / Unwrap() []error are flattened.
+//@ pred flattens(err error) = typeis(err, "*Stack") || implementsSig(err, "Unwind()[]error") || implementsSig(err, "Unwrap()[]error")
+
+//@ func (*Stack).Push
+//@   props C12
+//@   requires sinv(e)
+//@   modifies e.next, e.err, e.count, e.nodes, e.view
+//@   option noframe
+//@   ghostset e.view = (err != nil && !flattens(err) ? [err] + e.view : e.view)
+//@   ghostset e.nodes = (err != nil && !flattens(err) ? insert(e.nodes, 1, e.next) : e.nodes)
+//@   ensures sinv(e)
+//@   ensures ignored: err == nil ==> e.view == old(e.view) && e.nodes == old(e.nodes)
+//@   ensures pushed: err != nil && !flattens(err) ==> e.view == [err] + old(e.view)
+//@   ensures lossless: len(e.view) >= len(old(e.view)) && e.view[len(e.view) - len(old(e.view)):] == old(e.view)
+//@   loop 1 invariant sinv(e) && len(e.view) >= len(old(e.view)) && e.view[len(e.view) - len(old(e.view)):] == old(e.view)
+//@   loop 2 invariant sinv(e) && len(e.view) >= len(old(e.view)) && e.view[len(e.view) - len(old(e.view)):] == old(e.view) && rangeindex >= 0 - 1
+//@   loop 3 invariant sinv(e) && len(e.view) >= len(old(e.view)) && e.view[len(e.view) - len(old(e.view)):] == old(e.view) && rangeindex >= 0 - 1
+
+//@ func (*Stack).Len
+//@   props C12
+//@   requires e == nil || sinv(e)
+//@   ensures result == (e == nil ? 0 : len(e.view))
+
+// Resolve: nil exactly when nothing was pushed; the single error itself when
+// there is one; otherwise the stack.
+//@ func (*Stack).Resolve
+//@   props C12
+//@   requires e == nil || sinv(e)
+//@   ensures (e == nil || len(e.view) == 0) ==> result == nil
+//@   ensures e != nil && len(e.view) == 1 ==> result == e.view[0]
+//@   ensures e != nil && len(e.view) > 1 ==> result == e && typeis(result, "*Stack")
+
+//@ func (*Stack).Ok
+//@   props C12
+//@   requires e == nil || sinv(e)
+//@   ensures result == (e == nil || len(e.view) == 0)
+
+// Unwrap exposes the tail (so errors.Is / errors.As walk every constituent).
+//@ func (*Stack).Unwrap
+//@   props C12
+//@   requires sinv(e)
+//@   ensures len(e.view) <= 1 ==> result == nil
+//@   ensures len(e.view) > 1 ==> result == e.nodes[1]
+
+// Is delegates to the newest constituent.
+//@ func (*Stack).Is
+//@   props C12
+//@   requires sinv(e)
+//@   ensures result == errIs(e.err, err)
+
+// Unwind lists every constituent exactly once, most recent first.
+//@ func (*Stack).Unwind
+//@   props C12
+//@   requires sinv(e)
+//@   ensures len(result) == len(e.view) && (forall i: int :: 0 <= i && i < len(e.view) ==> result[i] == e.view[i])
+//@   loop 1 invariant 0 <= len(out) && len(out) <= len(e.view) && iter != nil && iter.next == e.nodes[len(out)] && (forall i: int :: 0 <= i && i < len(out) ==> out[i] == e.view[i])
+
+//@ pred plain(err error) = err != nil && !flattens(err)
+
+// Add pushes every argument in order: nils are ignored, nothing already in
+// the stack is lost, and every plain (non-flattened) argument adds one entry.
+//@ func (*Stack).Add
+//@   props C12
+//@   requires sinv(e)
+//@   modifies e.next, e.err, e.count, e.nodes, e.view
+//@   option noframe
+//@   ensures sinv(e)
+//@   ensures lossless: len(e.view) >= len(old(e.view)) && e.view[len(e.view) - len(old(e.view)):] == old(e.view)
+//@   ensures allnil: (forall i: int :: 0 <= i && i < len(errs) ==> errs[i] == nil) ==> e.view == old(e.view)
+//@   ensures grows: (exists i: int :: 0 <= i && i < len(errs) && plain(errs[i])) ==> len(e.view) > len(old(e.view))
+//@   ensures single: len(errs) == 1 && plain(errs[0]) ==> e.view == [errs[0]] + old(e.view)
+//@   ensures lastplain: len(errs) > 0 && plain(errs[len(errs) - 1]) ==> len(e.view) > 0 && e.view[0] == errs[len(errs) - 1]
+//@   ensures twoplain: len(errs) == 2 && plain(errs[0]) && plain(errs[1]) ==> e.view == [errs[1], errs[0]] + old(e.view)
+//@   loop 1 invariant rangeindex >= 0 && plain(errs[rangeindex]) ==> len(e.view) > 0 && e.view[0] == errs[rangeindex]
+//@   loop 1 invariant rangeindex == 1 && plain(errs[0]) && plain(errs[1]) ==> e.view == [errs[1], errs[0]] + old(e.view)
+//@   loop 1 invariant sinv(e) && len(e.view) >= len(old(e.view)) && e.view[len(e.view) - len(old(e.view)):] == old(e.view) && rangeindex >= 0 - 1 && rangeindex < len(errs)
+//@   loop 1 invariant (forall i: int :: 0 <= i && i <= rangeindex ==> errs[i] == nil) ==> e.view == old(e.view)
+//@   loop 1 invariant (exists i: int :: 0 <= i && i <= rangeindex && plain(errs[i])) ==> len(e.view) > len(old(e.view))
+//@   loop 1 invariant rangeindex == 0 && plain(errs[0]) ==> e.view == [errs[0]] + old(e.view)
+
+// Join: nil exactly when nothing (plain) was supplied; a single plain error
+// comes back as itself.
+// carries(res, x): x is the result itself or a constituent of the result stack
+//@ pred carries(res error, x error) = res == x || (typeis(res, "*Stack") && sinv(cast(res, "*Stack")) && holds(cast(res, "*Stack"), x))
+//@ func Join
+//@   props C12
+//@   ensures lastplain: len(errs) > 0 && plain(errs[len(errs) - 1]) ==> carries(result, errs[len(errs) - 1])
+//@   ensures twoplain: len(errs) == 2 && plain(errs[0]) && plain(errs[1]) ==> carries(result, errs[0]) && carries(result, errs[1])
+//@   ensures allnil: (forall i: int :: 0 <= i && i < len(errs) ==> errs[i] == nil) ==> result == nil
+//@   ensures nonnil: (exists i: int :: 0 <= i && i < len(errs) && plain(errs[i])) ==> result != nil
+//@   ensures single: len(errs) == 1 && plain(errs[0]) ==> result == errs[0]
+
+//@ pred holds(st *Stack, x error) = exists i: int :: 0 <= i && i < len(st.view) && st.view[i] == x
+//@ pred isErr(r ref) = implementsSig(r, "Error()string", "error")
+
+// ParsePanic: a panic value never disappears. For a non-nil value the result
+// is non-nil and carries ErrRecoveredPanic; a plain error value is itself a
+// constituent of the result. (The []error special case is excluded here and
+// recorded as a known finding: it neither adds ErrRecoveredPanic nor keeps an
+// empty slice from turning into nil.)
+//@ func ParsePanic
+//@   props C03 C12
+//@   ensures r == nil ==> result == nil
+//@   ensures r != nil && !typeis(r, "[]error") ==> result != nil && carries(result, ErrRecoveredPanic)
+//@   ensures isErr(r) && plain(r) ==> carries(result, r)
+//@   ensures[C03] slicepanic: typeis(r, "[]error") ==> result != nil && carries(result, ErrRecoveredPanic)
